@@ -764,6 +764,7 @@ def main(argv):
             "address is even whatever the payload's size/alignment (including u8 and ZSTs). Width/niche is checked with C11's compile-time "
             "witnesses. Same-variant value equality is C14."
             " R-ARMS typed-access clause (any function building a typed borrow/handle from the union's word does so inside the arm of that variant); R-REFCNT-PAIR for the union."
+            " Round thirteen/fourteen: R-DESTROY as a premise; R-TAG refuses in-bounds pointer arithmetic on the union's word (undefined behaviour for zero-sized payloads); the variant test may be the written-out tag test or a private enum decoded from it."
         ),
         rule_text="instances = tag construction/test/strip sites, variant arms, the parity lemma",
         trusted_base=["rustc MIR def-use", "repr(C) layout rules", "expression evaluator analysis/symx.py"],
